@@ -635,19 +635,16 @@ class MQTTProtocol(MQTTBaseProtocol):
         With carriedOver=True, only what earlier connections left behind.
         '''
         #log.debug("{event}", event="Clean Persistent Session")
-        for k in list(self.factory.windowPublish[self.addr]):
-            request = self.factory.windowPublish[self.addr][k]
-            if carriedOver and request.protocol is self:
-                continue
-            del self.factory.windowPublish[self.addr][k]
-            request.deferred.errback(reason)
-
-        for k in list(self.factory.windowPubRelease[self.addr]):
-            request = self.factory.windowPubRelease[self.addr][k]
-            if carriedOver and request.protocol is self:
-                continue
-            del self.factory.windowPubRelease[self.addr][k]
-            request.deferred.errback(reason)
+        # Take everything out first and fail it afterwards: an errback may
+        # call publish() again, which must not move what is being purged.
+        purged = []
+        for window in (self.factory.windowPublish[self.addr], self.factory.windowPubRelease[self.addr]):
+            for k in list(window):
+                request = window[k]
+                if carriedOver and request.protocol is self:
+                    continue
+                del window[k]
+                purged.append(request)
 
         # messages still held back in the queue belong to the session too
         queue = self.factory.queuePublishTx[self.addr]
@@ -656,7 +653,10 @@ class MQTTProtocol(MQTTBaseProtocol):
                 continue
             queue.remove(request)
             if request.msgId:   # QoS 0 deferreds have already fired
-                request.deferred.errback(reason)
+                purged.append(request)
+
+        for request in purged:
+            request.deferred.errback(reason)
 
 
     # -------------------------------------
